@@ -884,15 +884,17 @@ def decider_items():
     cf_items = []
     for has_old in (False, True):
         for relink in (False, True):
-            for (is_link, nlink) in ((False, 1), (False, 2), (True, 1)):
+            for (meta_none, iscopy, is_link, nlink) in ((False, True, False, 1), (False, True, False, 2), (False, False, True, 1),
+                                                        (True, True, False, 1), (True, False, False, 1)):
                 for same in (False, True):
                     for types in (["copy"], ["hardlink", "copy"], ["symlink"]):
                         fs = FS(True)
+                        fs.iscopy = lambda p, v=iscopy: v
                         cache = Cache(types)
                         linked = []
                         # old entry "in cache", path exists, no force, no prompt: the guarded removal of the
                         # relink branch passes (in_cache) while the guard of the no-old-entry branch refuses
-                        old = TreeEntry(Meta(), ("k",), Meta(is_link=is_link, nlink=nlink),
+                        old = TreeEntry(Meta(), ("k",), None if meta_none else Meta(is_link=is_link, nlink=nlink),
                                         HashInfo("md5", "1" * 32 if same else "2" * 32)) if has_old else TreeEntry(None, ("k",), None, None)
                         new = TreeEntry(Meta(), ("k",), None, HashInfo("md5", "1" * 32))
                         try:
@@ -901,11 +903,11 @@ def decider_items():
                             act = 1 if cache.unprotected else (2 if fs.removed and linked else 98)
                         except co.PromptError:
                             act = 0
-                        fic = (not is_link) and nlink == 1
-                        cf_items.append(({"decider": "_checkout_file", "has_old": has_old, "relink": relink,
-                                          "is_link": is_link, "nlink": nlink, "same": same, "types": types},
-                                         "(%s, %s, %s, %s, %s)" % (cbool(has_old), cbool(relink), cbool(fic), cbool(same),
-                                                                   cbool(types[0] == "copy")), vN(act)))
+                        cf_items.append(({"decider": "_checkout_file", "has_old": has_old, "relink": relink, "meta_none": meta_none,
+                                          "iscopy": iscopy, "is_link": is_link, "nlink": nlink, "same": same, "types": types},
+                                         "(%s, %s, %s, %s, %s, %s, %s, %s)" % (
+                                             cbool(has_old), cbool(relink), cbool(meta_none if has_old else True), cbool(iscopy), cbool(is_link),
+                                             cbool(nlink == 1), cbool(same), cbool(types[0] == "copy")), vN(act)))
     return rm_items, cf_items
 
 
@@ -913,8 +915,10 @@ def check_deciders(ctx):
     rm_items, cf_items = decider_items()
     ctx.correspond("decider_remove", IMPORTS, "bool * bool * bool * option bool",
                    "fun '(f, ic, ex, a) => enc_rm_act (remove_guard f ic ex a)", rm_items)
-    ctx.correspond("decider_checkout_file", IMPORTS, "bool * bool * bool * bool * bool",
-                   "fun '(ho, rl, fic, so, cic) => enc_cf_act (cf_decide ho rl fic so cic)", cf_items)
+    ctx.correspond("decider_checkout_file", IMPORTS + "\nFrom DvcData Require Import Gen.ObjCheckout.",
+                   "bool * bool * bool * bool * bool * bool * bool * bool",
+                   "fun '(ho, rl, mn, ic, il, n1, so, cic) => enc_cf_opt (cf_of_acts (gen_checkout_file ho rl mn ic il n1 so cic))",
+                   cf_items)
     ctx.extra["anchor_ast"] = ast_hash({"_remove", "_relink", "_checkout_file", "_checkout", "_diff", "checkout",
                                         "_determine_files_to_relink", "_needs_relink", "_save_link"})
 
